@@ -456,6 +456,8 @@ func runC10(c *Ctx) {
 	c10Extra(c)
 	c10MissingImportIsError(c)
 	c10DepGraphLoops(c)
+	c10ValueStoredLast(c)
+	c10ImportsAllResolved(c)
 }
 
 // c10WktNarrow: in getModuleDepsRec an import is skipped (`continue`) only when no module provides it
